@@ -258,9 +258,9 @@ def rule_s4(ctx: Ctx) -> None:
         "return InsertionEncodablePerms.is_insertion_encodable(self.basis) or InsertionEncodablePerms.is_insertion_encodable(rotate_90_clockwise_set(self.basis))",
         "return InsertionEncodablePerms.is_insertion_encodable(self.basis)",
         "return is_insertion_encodable(self.basis)",
-    ], "insertion-encoding strategy applies iff the class test succeeds (for the basis or its quarter turn)")
+    ], "insertion-encoding strategy applies iff the class test succeeds (for the basis or its quarter turn)", required_calls=["is_insertion_encodable"])
     fm = repo.need_method("FinitelyManySimplesStrategy", "applies")
-    ctx.run(check_skeleton, ctx, "C19-S4", fm, ["return PinWords.has_finite_simples(self.basis)"], "finitely-many-simples strategy applies iff PinWords.has_finite_simples(basis)")
+    ctx.run(check_skeleton, ctx, "C19-S4", fm, ["return PinWords.has_finite_simples(self.basis)"], "finitely-many-simples strategy applies iff PinWords.has_finite_simples(basis)", required_calls=["has_finite_simples"])
 
 
 def variants():
@@ -289,11 +289,11 @@ def variants():
         V("flag-inverted", replace_expr(IN, "find_strategies", "long_runnning", "not long_runnning", which=1), "fire", "C19-S3"),
         V("keeps-non-applying", replace_expr(IN, "find_strategies", "strategy_object.applies()", "not strategy_object.applies()"), "fire", "C19-S3"),
         V("insenc-strategy-rightmost-only", replace_stmt(IE, "InsertionEncodingStrategy.applies", "return InsertionEncodablePerms.is_insertion_encodable(self.basis) or InsertionEncodablePerms.is_insertion_encodable(rotate_90_clockwise_set(self.basis))",
-                                                         "return InsertionEncodablePerms.is_insertion_encodable_rightmost(self.basis)"), "fire-or-undecided", "C19-S4"),
+                                                         "return InsertionEncodablePerms.is_insertion_encodable_rightmost(self.basis)"), "fire", "C19-S4"),
         V("insenc-strategy-and", replace_stmt(IE, "InsertionEncodingStrategy.applies", "return InsertionEncodablePerms.is_insertion_encodable(self.basis) or InsertionEncodablePerms.is_insertion_encodable(rotate_90_clockwise_set(self.basis))",
                                               "return InsertionEncodablePerms.is_insertion_encodable(self.basis) and InsertionEncodablePerms.is_insertion_encodable(rotate_90_clockwise_set(self.basis))"), "fire", "C19-S4"),
         V("simples-strategy-negated", replace_expr(FM, "FinitelyManySimplesStrategy.applies", "PinWords.has_finite_simples(self.basis)", "not PinWords.has_finite_simples(self.basis)"), "fire", "C19-S4"),
-        V("simples-strategy-special-only", replace_expr(FM, "FinitelyManySimplesStrategy.applies", "PinWords.has_finite_simples(self.basis)", "PinWords.has_finite_special_simples(self.basis)"), "fire-or-undecided", "C19-S4"),
+        V("simples-strategy-special-only", replace_expr(FM, "FinitelyManySimplesStrategy.applies", "PinWords.has_finite_simples(self.basis)", "PinWords.has_finite_special_simples(self.basis)"), "fire", "C19-S4"),
         V("find-strategies-one-shot", replace_stmt(IN, "find_strategies", "basis = tuple(basis)", ""), "fire", "C19-I1", "the original defect"),
         # silent
         V("reformat-init", reformat_only(IN), "silent"),
